@@ -9,7 +9,7 @@ ID = "C13"
 READY = True
 LEVEL = "exploration"
 WORKERS = {"quick": 8, "thorough": 16}
-BUDGET = {"quick": 60, "thorough": 420}
+BUDGET = {"quick": 150, "thorough": 420}
 MIN_NONTRIVIAL = {"quick": 1500, "thorough": 25000}
 REQUIRED_HOOKS = ["evaluate:I", "evaluate:C", "isinstance", "type-eq", "dunder-result-class"]
 RULE = (
